@@ -25,7 +25,7 @@
                            a started batch b and [produced (log of b) (keys of b) (key of cl) o]. *)
 From Coq Require Import List Arith NArith Bool.
 Import ListNotations.
-Require Import Aiuti.Case_Batcher Aiuti.Case_Batcher_Sound Aiuti.Case_Batcher_Basic Aiuti.BatcherSim Aiuti.Case_Batcher_C04 Aiuti.Batcher Aiuti.BatcherLimits Aiuti.BatcherTime Aiuti.BatcherInv Aiuti.BatcherProps.
+Require Import Aiuti.Case_Batcher Aiuti.Case_Batcher_Sound Aiuti.Case_Batcher_Basic Aiuti.BatcherSim Aiuti.Case_Batcher_C04 Aiuti.Case_Batcher_Sound04 Aiuti.Batcher Aiuti.BatcherLimits Aiuti.BatcherTime Aiuti.BatcherInv Aiuti.BatcherProps.
 
 (* Each caller gets exactly its own outcome.  If the trace says caller i completed
    with outcome o, then caller i's key is the key of its call, the item that carries
@@ -126,6 +126,34 @@ Theorem monitor_complete_nochain :
   ok_C04 (BCase c evs (map canon (fst (run c evs))) (waiting_callers (snd (run c evs)))) = true.
 Proof. exact ok_C04_complete. Qed.
 Print Assumptions monitor_complete_nochain.
+
+(* Model-free SOUNDNESS of the state-dependent conjuncts of ok_C04 (no model involved: script and
+   observed trace only; [m] below is the monitor state before the step, computed from them):
+   if ok_C04 accepts, then at every macro step every completion of a caller that was already
+   waiting is justified by the script — the event is the Cancel of that caller (Cancelled), or a
+   batch-function event of a batch that was OBSERVED to start and still owes the caller's key,
+   and the outcome is exactly what that event produces for that key (yield of this key: the
+   yielded value / Exception; yield of a key the batch does not owe: ProtocolErr; raise: that
+   exception; return: Missing).  So an accepted trace never gives a waiting caller what was
+   yielded for another key, and never completes a caller without cause.
+   PARTIAL: immediate answers (a call answered in its own step) are checked by the monitor
+   against the latest outcome produced for the key (imm_ok04) — not restated here; that a call is
+   answered at once only inside the retention window is ok_C11's conjunct. *)
+Theorem monitor_sound_late_partial :
+  forall c evs observed w, ok_C04 (BCase c evs observed w) = true ->
+  all_steps late_justified c (minit c) evs observed.
+Proof. exact ok_C04_sound_late. Qed.
+Print Assumptions monitor_sound_late_partial.
+
+(* ... and the final rule: the observed waiting list is exactly the callers without an observed
+   completion, and it is empty once every observed batch was ended by the script and
+   batch_timeout elapsed since the last call (no hang). *)
+Theorem monitor_sound_end :
+  forall c evs observed w, ok_C04 (BCase c evs observed w) = true ->
+  exists m, mon_run c (minit c) evs observed = Some m /\ w = not_done_from 0 (m_calls m) /\
+            (m_live m = [] -> (c_bt c <= m_idle m)%N -> w = []).
+Proof. exact ok_C04_sound_end. Qed.
+Print Assumptions monitor_sound_end.
 
 (* Soundness of the full monitor, PARTIAL.  The trace monitor ok_C04 (Case_Batcher.v) that judges
    the implementation's observed trace is independent of the model.  Proved here:
